@@ -57,10 +57,13 @@ if [ -d $src/$demo ]; then
     [ -n "$tf" ] && pkgdirs="./$(dirname $tf)/"
   fi
   pkgdirs=$(echo $pkgdirs | tr ' ' '\n' | sort -u | tr '\n' ' ')
+  # only the demonstration's own tests (packages may hold suites that need an etcd binary)
+  tests=$(grep -hoE "^func (Test[A-Za-z0-9_]*)" out/$demo/*_test.go 2>/dev/null | awk '{print $2}' | sort -u | tr '\n' '|' | sed 's/|$//')
+  runflag=""; [ -n "$tests" ] && runflag="-run ^($tests)\$"
   if [ -n "$pkgdirs" ]; then
-    go test -vet=off -count=1 $pkgdirs > /tmp/cfd.$$.log 2>&1; with=$?
+    go test -vet=off -count=1 $runflag $pkgdirs > /tmp/cfd.$$.log 2>&1; with=$?
     git apply -R $d/patch.diff
-    go test -vet=off -count=1 $pkgdirs > /tmp/cfd2.$$.log 2>&1; without=$?
+    go test -vet=off -count=1 $runflag $pkgdirs > /tmp/cfd2.$$.log 2>&1; without=$?
     log "DEMO: with patch exit=$with (expected non-zero), without patch exit=$without (expected 0) [$pkgdirs]"
     [ $without -ne 0 ] && grep -E "^(--- FAIL|FAIL|panic)" /tmp/cfd2.$$.log | head -5 >> $out
     rm -f /tmp/cfd.$$.log /tmp/cfd2.$$.log
